@@ -1,5 +1,5 @@
 (* Properties_C17.v — C17: a truncated file never yields wrong data. *)
-From ElfioV Require Import Bytes Mem Stream SectionData Strings Elfio Table Loader Load_proofs Data_proofs.
+From ElfioV Require Import Bytes Mem Stream SectionData Strings Elfio Table Loader Load_proofs Data_proofs Reader_proofs Prefix_proofs.
 Local Open Scope N_scope.
 
 (* loading any prefix (any bytes at all) returns without a fault *)
@@ -58,6 +58,25 @@ Theorem C17_prefix_data_agrees :
                        s_data s2 = Some d.
 Proof. exact prefix_same_data. Qed.
 Print Assumptions C17_prefix_data_agrees.
+
+(* the ELF header: whatever prefix of a file with a decodable header (magic, class and byte-order bytes accepted, at
+   least the header's length) is loaded, either load() reports failure, or the object reports exactly the header the
+   complete file yields - a cut inside the header never yields a successful load with partly read fields *)
+Theorem C17_prefix_header_absent_or_identical :
+  forall junk el k (f : bytes) n lazy h,
+    xlat_empty (el_xlat el) = true -> parse_header f = Some h ->
+    (exists el' al, load junk el k (firstnN f n) lazy = Ok (el', false, al)) \/
+    (exists el' ok al, load junk el k (firstnN f n) lazy = Ok (el', ok, al) /\ el_hdr el' = Some h).
+Proof. exact prefix_header_absent_or_identical. Qed.
+Print Assumptions C17_prefix_header_absent_or_identical.
+
+(* ... and an input without a decodable header is refused, whatever else it holds *)
+Theorem C17_no_header_no_load :
+  forall junk el k content lazy,
+    xlat_empty (el_xlat el) = true -> parse_header content = None ->
+    exists el' al, load junk el k content lazy = Ok (el', false, al).
+Proof. exact load_fails_without_header. Qed.
+Print Assumptions C17_no_header_no_load.
 
 (* non-vacuity: section bytes 2..5 of a 10-byte file; prefix of 6 bytes yields them, prefix of 5 yields nothing *)
 Definition ex_full : bytes := [0; 1; 2; 3; 4; 5; 6; 7; 8; 9].
